@@ -15,7 +15,9 @@ META = dict(
          "whose socket answers getpeername() with ENOTCONN or a mismatching address, possibly batched with other accepts; "
          "serviceConnects may raise for it once, then it must be gone and the other peers must get their entries - depth 5 / 7. A fourth family adds "
          "transmitIx(P) (unsent data queued on the entry) and peerbreak(P) (send() raises EPIPE / EBADF from then on): removeIx, "
-         "closeIx, closeAllIx - also removeIx after closeIx - must still close, drop the key and not raise - depth 5 / 7. After every transition: no operation raised; per peer address at "
+         "closeIx, closeAllIx - also removeIx after closeIx - must still close, drop the key and not raise - depth 5 / 7. A fifth family "
+         "(Server) adds connectalt(P): the peer connects to the server's second local address, so a re-accepted peer address "
+         "has a different getsockname() - depth 6 / 8. After every transition: no operation raised; per peer address at "
          "most one table entry (.ixes and .cxes together) whose socket is neither shut down nor closed; the newest accepted, "
          "not removed connection of each address is the one in the table; a replaced stale connection is shut down or "
          "closed; no other socket was shut down or closed; removeIx leaves the socket closed and the key gone.",
@@ -41,6 +43,12 @@ ACCEPT_FAULTS = ("getpeername-ENOTCONN", "getpeername-mismatch")
 # goes away and every later send() on the server-side socket raises this errno (Incomer.send re-raises both);
 # removing / closing such an entry must still close the socket and drop the key without raising
 SEND_FAULTS = ("send-EPIPE", "send-EBADF")
+# configuration with connectalt(P): the peer connects to the server's second local address (the server listens
+# on 0.0.0.0), so a re-accepted peer address comes with a different getsockname(); plain Server only (ServerTls
+# rejects sockets whose local address is not its .eha)
+ALT_LOCAL = "alt-local-address"
+ALT_HA = ("127.0.0.2", PORT)
+ALT_DEPTH = dict(quick=6, thorough=8)
 SFAULT_DEPTH = dict(quick=5, thorough=7)
 AFAULT_DEPTH = dict(quick=5, thorough=7)
 
@@ -93,7 +101,8 @@ class World:
         self.subject = subject
         self.afault = fault if fault in ACCEPT_FAULTS else None
         self.sfault = fault if fault in SEND_FAULTS else None
-        self.fault = None if (self.afault or self.sfault) else fault   # errno raised by shutdown() after a peerreset
+        self.alt = fault == ALT_LOCAL
+        self.fault = None if (self.afault or self.sfault or self.alt) else fault   # errno raised by shutdown() after a peerreset
         self.policy = HsPolicy()
         self.fn = net.FakeNet(policy=self.policy)
         FSM.net = self.fn
@@ -158,6 +167,8 @@ class World:
                 evs.append(("connect", p))
                 if self.afault:
                     evs.append(("connectbad", p))
+                if self.alt:
+                    evs.append(("connectalt", p))
             else:
                 evs.append(("peerclose", p))
                 if self.fault:
@@ -189,11 +200,11 @@ class World:
         srv = self.srv
         op = ev[0]
         try:
-            if op in ("connect", "connectbad"):
+            if op in ("connect", "connectbad", "connectalt"):
                 p = ev[1]
                 c = self.fn.socket(name="cli%d" % len(self.conns))
                 c.bind(p)
-                rc = c.connect_ex(HA)
+                rc = c.connect_ex(ALT_HA if op == "connectalt" else HA)
                 if rc != 0:
                     raise core.BrokenCheck("double refused a connect to a listening server")
                 conn = Conn(len(self.conns), p, c, srv.ss.backlog[-1])
@@ -367,10 +378,10 @@ class World:
                 if not ref and not inback and st == "closed" and c.client.closed:
                     continue          # fully dead: cannot influence anything any more
                 row.append((ref, inback, st, c.client.closed, c.removed, c.closedix, len(c.srv.inbox), c.reset,
-                            c.srv.calls["shutdown"] > 0, c.bad, c.reported))
+                            c.srv.calls["shutdown"] > 0, c.bad, c.reported, c.srv.laddr[0]))
             per.append((p in self.live, tuple(row)))
         order = tuple(tuple(tbl.keys()) for _, tbl in self.tables())
-        back = tuple(s.raddr for s in srv.ss.backlog)
+        back = tuple((s.raddr, s.laddr[0]) for s in srv.ss.backlog)
         queued = tuple(ca for cs, ca in srv.axes)
         return (tuple(per), order, back, queued)
 
@@ -392,12 +403,14 @@ def report(p, subject, w, hist):
     ftag = " [after peerreset shutdown() raises %s]" % w.fault if w.fault else ""
     if w.afault:
         ftag = " [connectbad: %s]" % w.afault
+    if w.alt:
+        ftag = " [connectalt: the peer connects to 127.0.0.2, the server's other local address]"
     if w.sfault:
         ftag = " [after peerbreak send() raises %s]" % w.sfault.split("-")[1]
     p.violation("%s|%s" % (subject, kind), " ".join(show(e) for e in hist) + (" shutdown=%s" % w.fault if w.fault else "")
-                + (" %s" % (w.afault or w.sfault) if (w.afault or w.sfault) else ""),
+                + (" %s" % (w.afault or w.sfault) if (w.afault or w.sfault) else "") + (" " + ALT_LOCAL if w.alt else ""),
                 "%s after history [%s]%s: %s" % (subject, ", ".join(show(e) for e in hist), ftag, what),
-                dict(subject=subject, shutdown_fault=w.fault or w.afault or w.sfault, history=[[e[0]] + [list(x) if isinstance(x, tuple) else x for x in e[1:]] for e in hist],
+                dict(subject=subject, shutdown_fault=w.fault or w.afault or w.sfault or (ALT_LOCAL if w.alt else None), history=[[e[0]] + [list(x) if isinstance(x, tuple) else x for x in e[1:]] for e in hist],
                      what=what, double_log=w.fn.trace(30),
                      how="serving.%s(ha=('',%d)) over mc.net doubles; connect = raw client bound to the peer "
                          "address connects and sends one byte; peerclose = that client closes; peerreset = that client "
@@ -475,6 +488,7 @@ def run():
     cfgs += [(sub, fdepth, f) for f in SHUTDOWN_FAULTS for sub in ("Server", "ServerTls")]
     cfgs += [(sub, AFAULT_DEPTH[core.TIER], f) for f in ACCEPT_FAULTS for sub in ("Server", "ServerTls")]
     cfgs += [(sub, SFAULT_DEPTH[core.TIER], f) for f in SEND_FAULTS for sub in ("Server", "ServerTls")]
+    cfgs.append(("Server", ALT_DEPTH[core.TIER], ALT_LOCAL))
     ck.merge(core.pmap(explore, cfgs))
     ck.assumptions = [
         "a second connection from the same peer address can be made only after the previous client socket bound to that "
@@ -489,6 +503,8 @@ def run():
         "ValueError/OSError once; the caller keeps servicing; afterwards that accept must be gone (not queued, no entry "
         "required) and every other accepted peer must get its one live entry on the following passes without further "
         "exceptions",
+        "connectalt: the table is keyed by peer address alone, so a peer address re-accepted on another local address of the "
+        "server still replaces (and must shut down) the stale entry",
         "transmitIx / peerbreak family: data queued on an entry may be unsendable (send raises EPIPE / EBADF, or the entry was "
         "closed with closeIx); removeIx / closeIx / closeAllIx must nevertheless close the socket, drop the key (removeIx) and "
         "not raise; serviceTxesAllIx is not an event there because a non-loss send error propagating out of it is C25's rule",
@@ -502,8 +518,9 @@ def run():
              "shutdown errno in {ENOTCONN, EBADF, EINVAL, ECONNRESET, EPIPE}, the same with the extra events peerreset(P) and "
              "closeAllIx up to depth %d; plus, per accept fault in {getpeername ENOTCONN, getpeername address mismatch}, the "
              "base events and connectbad(P) up to depth %d; plus, per send fault in {EPIPE, EBADF}, the base events, "
-             "transmitIx(P), peerbreak(P) and closeAllIx up to depth %d; states merged by canonical form; a state that violates an "
-             "invariant is not expanded" % (depth, fdepth, AFAULT_DEPTH[core.TIER], SFAULT_DEPTH[core.TIER]),
+             "transmitIx(P), peerbreak(P) and closeAllIx up to depth %d; plus (Server) the base events and connectalt(P) = connect "
+             "to the server's second local address, up to depth %d; states merged by canonical form; a state that violates an "
+             "invariant is not expanded" % (depth, fdepth, AFAULT_DEPTH[core.TIER], SFAULT_DEPTH[core.TIER], ALT_DEPTH[core.TIER]),
         exhaustive=False,
         explanation="depth-bounded: exhaustive over all histories up to the stated depth, not a fixpoint "
                     "(leaked stale sockets make the state space unbounded)")
